@@ -39,6 +39,8 @@ def family(rp):
     f.add("declare-non-exception", "class NotErr\n    def a: Int := 1\ndef f() -> Int raise [NotErr] => 1\n", "reject")
     f.add("call-in-loop-unhandled", PRE + "def f() -> Int =>\n    for i in 0 .. 3 do g(i)\n    2\n", "reject")
     f.add("call-in-loop-handled", PRE + "def f() -> Int raise [MyErr1] =>\n    for i in 0 .. 3 do g(i)\n    2\n", "accept")
+    f.add("declare-exception-subclass", PRE + "def k() -> Int raise [MyErr2] => 1\n", "accept")
+    f.add("declare-exception-itself", "def k() -> Int raise [Exception] => 1\n", "accept")
     f.add("call-in-branch-unhandled", PRE + "def f() -> Int =>\n    if True then\n        g(1)\n    2\n", "reject")
     return f
 
@@ -233,6 +235,12 @@ def run(run):
             f(run, mir, rp, fam)
         except Unsupported as e:
             run.ob(f.__name__[3:] + "-encoding", "E2", "kernel is encodable").inconclusive(f"unsupported construct: {e}")
+    try:
+        # `raise [E]` declarations go through Class::has_parent(&Name): only descendants of Exception may be declared
+        from props import C20
+        C20.ob_has_parent_name(run, mir, rp, fam, only=["declare-"])
+    except Unsupported as e:
+        run.ob("has-parent-of-name-encoding", "E2", "kernel is encodable").inconclusive(f"unsupported construct: {e}")
     if run.clean():
         e2.validate_family(run, fam, "raises")
     rp.close()
